@@ -1653,6 +1653,10 @@ where
             // CharacterEscape :: IdentityEscape :: [+UnicodeMode] /
             '^' | '$' | '\\' | '.' | '*' | '+' | '?' | '(' | ')' | '[' | ']' | '{' | '}' | '|'
             | '/' => Ok(c),
+            // SourceCharacterIdentityEscape[+NamedCaptureGroups] :: SourceCharacter but not one of c or k
+            'k' if !self.flags.unicode && !self.named_group_indices.is_empty() => {
+                error("Invalid character escape")
+            }
             // CharacterEscape :: IdentityEscape :: SourceCharacterIdentityEscape
             _ if !self.flags.unicode => Ok(c),
             _ => error("Invalid character escape"),
